@@ -6,7 +6,7 @@
    and non-vacuity examples. *)
 From QV.lib Require Import Prelude FinSum DFT DFT2 DFT_Inst.
 From QV.model Require Import C02_Model.
-From QV.proof Require Import C02_Proofs_Index C02_Proofs_Forward C02_Proofs_Inst.
+From QV.proof Require Import C02_Proofs_Index C02_Proofs_Forward C02_Proofs_Inst C02_Proofs_Ext C02_Proofs_ExtInst.
 From Coq Require Import QArith Qcanon.
 Local Close Scope Q_scope.
 Local Open Scope Z_scope.
@@ -262,3 +262,185 @@ Example C02_nonvacuous_normalisation : forall (P Q : nat -> nat -> C) (c : C),
        [iobj 1 2; iobj 3 1] 6 5 4 3 (iramp 1) (iramp 3) [ikern 1] (scale_modes cmul c [P; Q]))
   = cmul (cmul c (cconj c)) (total_probe_intensity c0 cadd cmul cconj 4 4 [P; Q]).
 Proof. exact C02i_normalisation. Qed.
+
+(* ==========================================================================================
+   round-3 extensions
+   ========================================================================================== *)
+
+(* ------------------------------------------------------------------------------------------
+   repaired `no_shift` preprocessing (com_fit = roi // 2, fixes/C02-no-shift-odd-roi.diff): the
+   Fourier shift by -(floor(N1/2), floor(N2/2)) followed by fftshift is the identity on the detector
+   for EVERY N1 x N2 — even, odd, non-square.  (The unrepaired origin N/2 is not a pixel for odd N:
+   second clause of C02_centre_index.) *)
+Theorem C02_no_shift_identity_all_sizes :
+  forall (R : Type) (rO rI : R) (radd rmul rsub : R -> R -> R) (ropp : R -> R),
+    ring_theory rO rI radd rmul rsub ropp eq ->
+    forall conj : R -> R, conj_ok radd rmul conj ->
+    forall (N1 : nat) (w1 : Z -> R) (Ninv1 : R) (N2 : nat) (w2 : Z -> R) (Ninv2 : R),
+    root_ok rO rI radd rmul conj N1 w1 Ninv1 ->
+    root_ok rO rI radd rmul conj N2 w2 Ninv2 ->
+    forall (x : nat -> nat -> R) (n1 n2 : nat), (n1 < N1)%nat -> (n2 < N2)%nat ->
+      fftshift2 N1 N2
+        (fmul2 rO radd rmul N1 w1 Ninv1 N2 w2 Ninv2
+           (fun k1 k2 => rmul (w1 (Z.of_nat k1 * - Z.of_nat (N1 / 2))) (w2 (Z.of_nat k2 * - Z.of_nat (N2 / 2)))) x) n1 n2
+      = x n1 n2.
+Proof. exact no_shift_identity. Qed.
+Print Assumptions C02_no_shift_identity_all_sizes.
+
+(* an odd x even (1 x 4) detector over Q(i): the root-of-unity hypotheses hold for an odd size too *)
+Example C02_nonvacuous_no_shift_odd : and (root_ok c0 c1 cadd cmul cconj 1%nat w1c c1) (
+  forall (x : nat -> nat -> C) n1 n2, (n1 < 1)%nat -> (n2 < 4)%nat ->
+  fftshift2 1 4 (fmul2 c0 cadd cmul 1 w1c c1 4 w4 quarter
+                   (fun k1 k2 => cmul (w1c (Z.of_nat k1 * - Z.of_nat (1 / 2))) (w4 (Z.of_nat k2 * - Z.of_nat (4 / 2)))) x) n1 n2
+  = x n1 n2).
+Proof. split; [exact C_root_ok_1 | exact C02i_no_shift_odd]. Qed.
+
+(* index form: the repaired origin is the detector model's zero-frequency pixel floor(n/2), it is
+   centred by the identity permutation for every n, and for even n it is the old origin n/2 *)
+Theorem C02_no_shift_index :
+  forall n, 0 < n ->
+    (forall i, 0 <= i < n -> centre_index n (no_shift_origin n) i = i) /\
+    no_shift_origin n = dc_position n /\
+    (Z.even n = true -> 2 * no_shift_origin n = no_shift_origin_twice n).
+Proof. exact no_shift_index_all. Qed.
+Print Assumptions C02_no_shift_index.
+
+Example C02_nonvacuous_no_shift_index :
+  map (centre_index 7 (no_shift_origin 7)) [0; 1; 2; 3; 4; 5; 6] = [0; 1; 2; 3; 4; 5; 6] /\
+  map (centre_index 8 (no_shift_origin 8)) [0; 1; 2; 3; 4; 5; 6; 7] = [0; 1; 2; 3; 4; 5; 6; 7] /\
+  no_shift_origin 7 = 3 /\ no_shift_origin 8 = 4.
+Proof. vm_compute. repeat split. Qed.
+
+(* ------------------------------------------------------------------------------------------
+   exact half-integer scan positions z + 1/2 (every integer z): the patch anchor is the EVEN
+   neighbour, the sub-pixel part is +1/2 or -1/2 accordingly — anchor and sub-pixel shift use the
+   same rounding (torch.round), so anchor + shift is the position (C02_round_frac_split) *)
+Theorem C02_round_tie :
+  forall z : Z,
+    round_half_even (inject_Z z + (1 # 2))%Q = (if Z.even z then z else z + 1) /\
+    Z.even (round_half_even (inject_Z z + (1 # 2))%Q) = true /\
+    (frac_part (inject_Z z + (1 # 2)) == (if Z.even z then 1 # 2 else - (1 # 2)))%Q.
+Proof. exact round_tie. Qed.
+Print Assumptions C02_round_tie.
+
+Example C02_nonvacuous_round_tie :
+  round_half_even (25 # 2) = 12 /\ round_half_even (27 # 2) = 14 /\ round_half_even (-3 # 2) = -2 /\
+  Qred (frac_part (25 # 2)) = (1 # 2)%Q /\ Qred (frac_part (27 # 2)) = (-1 # 2)%Q.
+Proof. vm_compute. repeat split. Qed.
+
+(* ------------------------------------------------------------------------------------------
+   potential objects.  e : P -> R is a character of a phase group (P, padd, popp, pzero) — the role
+   of exp(i .): e (a + b) = e a * e b, e 0 = 1, conj (e a) = e (- a).  (1) the code exponentiates the
+   whole potential array and gathers by flat patch indices; that is e of the periodically wrapped
+   potential WINDOW.  (2) with the object exp(i V_s) in every slice, sub-pixel ramps e(phi) and
+   kernels e(kappa) — any potentials, phases, number of slices and modes — the pipeline AS THE CODE
+   RUNS IT predicts patterns that each sum to the mean measured pattern sum once the probe is
+   normalised: unit modulus of object, ramps and propagators is proved from the character laws *)
+Theorem C02_potential_gather_commutes :
+  forall (R : Type) (rO rI : R) (radd rmul rsub : R -> R -> R) (ropp : R -> R),
+    ring_theory rO rI radd rmul rsub ropp eq ->
+    forall conj : R -> R, conj_ok radd rmul conj ->
+    forall (N1 : nat) (w1 : Z -> R) (Ninv1 : R) (N2 : nat) (w2 : Z -> R) (Ninv2 : R),
+    root_ok rO rI radd rmul conj N1 w1 Ninv1 ->
+    root_ok rO rI radd rmul conj N2 w2 Ninv2 ->
+    forall (P : Type) (padd : P -> P -> P) (popp : P -> P) (pzero : P) (e : P -> R),
+    (forall a b, e (padd a b) = rmul (e a) (e b)) -> e pzero = rI ->
+    (forall a, conj (e a) = e (popp a)) -> (forall a, padd a (popp a) = pzero) ->
+    forall (V : Z -> Z -> P) (H W r0 c0 : Z) (i j : nat), 0 < H -> 0 < W ->
+      gather_flat N1 N2 (flatten (pot_obj e V) W) H W r0 c0 i j = e (gather_window N1 N2 V H W r0 c0 i j).
+Proof. exact potential_gather_commutes. Qed.
+Print Assumptions C02_potential_gather_commutes.
+
+Theorem C02_potential_forward_total :
+  forall (R : Type) (rO rI : R) (radd rmul rsub : R -> R -> R) (ropp : R -> R),
+    ring_theory rO rI radd rmul rsub ropp eq ->
+    forall conj : R -> R, conj_ok radd rmul conj ->
+    forall (N1 : nat) (w1 : Z -> R) (Ninv1 : R) (N2 : nat) (w2 : Z -> R) (Ninv2 : R),
+    root_ok rO rI radd rmul conj N1 w1 Ninv1 ->
+    root_ok rO rI radd rmul conj N2 w2 Ninv2 ->
+    forall (P : Type) (padd : P -> P -> P) (popp : P -> P) (pzero : P) (e : P -> R),
+    (forall a b, e (padd a b) = rmul (e a) (e b)) -> e pzero = rI ->
+    (forall a, conj (e a) = e (popp a)) -> (forall a, padd a (popp a) = pzero) ->
+    forall sN : R, rmul sN sN = rmul Ninv1 Ninv2 -> conj sN = sN ->
+    forall (Vs : list (Z -> Z -> P)) (H W r0 c0 : Z) (phr phc : nat -> P) (ks : list (nat -> nat -> P))
+           (probes : list (nat -> nat -> R)) (c mean_i : R),
+      0 < H -> 0 < W -> length ks = pred (length Vs) ->
+      rmul (rmul c (conj c)) (total_probe_intensity rO radd rmul conj N1 N2 probes) = mean_i ->
+      sum2 rO radd N1 N2
+        (forward_code rO radd rmul conj N1 w1 Ninv1 N2 w2 Ninv2 sN
+           (map (fun o => flatten o W) (map (pot_obj e) Vs)) H W r0 c0
+           (phase_ramp e phr) (phase_ramp e phc) (map (phase_img e) ks) (scale_modes rmul c probes))
+      = mean_i.
+Proof. exact potential_forward_total. Qed.
+Print Assumptions C02_potential_forward_total.
+
+(* the character hypotheses are satisfiable: e = w4 on (Z, +); two-slice potential, two modes *)
+Example C02_nonvacuous_potential :
+  (forall a b, w4 (a + b) = cmul (w4 a) (w4 b)) /\ w4 0 = c1 /\ (forall a, cconj (w4 a) = w4 (- a)) /\
+  forall (P Q : nat -> nat -> C) (c : C),
+  sum2 c0 cadd 4 4
+    (forward_code c0 cadd cmul cconj 4 w4 quarter 4 w4 quarter quarter
+       (map (fun o => flatten o 5) (map (pot_obj w4) [ipot 1 2; ipot 3 1])) 6 5 4 3
+       (phase_ramp w4 (iphi 1)) (phase_ramp w4 (iphi 3)) (map (phase_img w4) [ikap 1]) (scale_modes cmul c [P; Q]))
+  = cmul (cmul c (cconj c)) (total_probe_intensity c0 cadd cmul cconj 4 4 [P; Q]).
+Proof. repeat split; [exact w4_add | exact w4_conj | exact C02i_potential]. Qed.
+
+(* ------------------------------------------------------------------------------------------
+   probe normalisation WITH MODE WEIGHTS (_apply_weights).  weights_ok M ds ps wts says: for every
+   mode m, (d_m conj d_m) * energy(p_m) = wt_m * M.  Then every predicted pattern sums to
+   (sum of the weights) * M.  As the code runs it — common factor c with (c conj c) * total = M, then
+   per-mode factors d_m with (d_m conj d_m) * energy(c p_m) = w_m * (total after the first step),
+   weights summing to one — every predicted pattern sums to M and mode m carries exactly w_m * M. *)
+Theorem C02_probe_normalisation_weights :
+  forall (R : Type) (rO rI : R) (radd rmul rsub : R -> R -> R) (ropp : R -> R),
+    ring_theory rO rI radd rmul rsub ropp eq ->
+    forall conj : R -> R, conj_ok radd rmul conj ->
+    forall (N1 : nat) (w1 : Z -> R) (Ninv1 : R) (N2 : nat) (w2 : Z -> R) (Ninv2 : R),
+    root_ok rO rI radd rmul conj N1 w1 Ninv1 ->
+    root_ok rO rI radd rmul conj N2 w2 Ninv2 ->
+    forall sN : R, rmul sN sN = rmul Ninv1 Ninv2 -> conj sN = sN ->
+    forall (obj2 : list (Z -> Z -> R)) (H W r0 c0 : Z) (rr rc : nat -> R)
+           (props : list (nat -> nat -> R)) (M : R) (ds : list R) (ps : list (nat -> nat -> R)) (wts : list R),
+      Forall (unit2 R rI rmul conj N1 N2) (map (fun o => gather_window N1 N2 o H W r0 c0) obj2) ->
+      Forall (unit2 R rI rmul conj N1 N2) props ->
+      unit2 R rI rmul conj N1 N2 (fun k1 k2 => rmul (rr k1) (rc k2)) ->
+      weights_ok R rO radd rmul conj N1 N2 M ds ps wts ->
+      sum2 rO radd N1 N2
+        (forward_ref rO radd rmul conj N1 w1 Ninv1 N2 w2 Ninv2 sN obj2 H W r0 c0 rr rc props
+                     (scale_modes_w rmul ds ps)) = rmul (suml rO radd wts) M.
+Proof. exact probe_normalisation_weights. Qed.
+Print Assumptions C02_probe_normalisation_weights.
+
+Theorem C02_apply_weights_code_normalises :
+  forall (R : Type) (rO rI : R) (radd rmul rsub : R -> R -> R) (ropp : R -> R),
+    ring_theory rO rI radd rmul rsub ropp eq ->
+    forall conj : R -> R, conj_ok radd rmul conj ->
+    forall (N1 : nat) (w1 : Z -> R) (Ninv1 : R) (N2 : nat) (w2 : Z -> R) (Ninv2 : R),
+    root_ok rO rI radd rmul conj N1 w1 Ninv1 ->
+    root_ok rO rI radd rmul conj N2 w2 Ninv2 ->
+    forall sN : R, rmul sN sN = rmul Ninv1 Ninv2 -> conj sN = sN ->
+    forall (obj2 : list (Z -> Z -> R)) (H W r0 c0 : Z) (rr rc : nat -> R)
+           (props : list (nat -> nat -> R)) (M c : R) (ds : list R) (ps : list (nat -> nat -> R)) (wts : list R),
+      Forall (unit2 R rI rmul conj N1 N2) (map (fun o => gather_window N1 N2 o H W r0 c0) obj2) ->
+      Forall (unit2 R rI rmul conj N1 N2) props ->
+      unit2 R rI rmul conj N1 N2 (fun k1 k2 => rmul (rr k1) (rc k2)) ->
+      rmul (rmul c (conj c)) (total_probe_intensity rO radd rmul conj N1 N2 ps) = M ->
+      weights_ok R rO radd rmul conj N1 N2 (total_probe_intensity rO radd rmul conj N1 N2 (scale_modes rmul c ps))
+                 ds (scale_modes rmul c ps) wts ->
+      suml rO radd wts = rI ->
+      sum2 rO radd N1 N2
+        (forward_ref rO radd rmul conj N1 w1 Ninv1 N2 w2 Ninv2 sN obj2 H W r0 c0 rr rc props
+                     (apply_weights_code rmul c ds ps)) = M /\
+      map (fun pr => energy2 rO radd rmul conj N1 N2 pr) (apply_weights_code rmul c ds ps)
+      = map (fun wt => rmul wt M) wts.
+Proof. exact apply_weights_code_normalises. Qed.
+Print Assumptions C02_apply_weights_code_normalises.
+
+Example C02_nonvacuous_weights : forall (P Q : nat -> nat -> C) (d1 d2 M wt1 wt2 : C),
+  cmul (cmul d1 (cconj d1)) (energy2 c0 cadd cmul cconj 4 4 P) = cmul wt1 M ->
+  cmul (cmul d2 (cconj d2)) (energy2 c0 cadd cmul cconj 4 4 Q) = cmul wt2 M ->
+  sum2 c0 cadd 4 4
+    (forward_ref c0 cadd cmul cconj 4 w4 quarter 4 w4 quarter quarter
+       [iobj 1 2; iobj 3 1] 6 5 4 3 (iramp 1) (iramp 3) [ikern 1] (scale_modes_w cmul [d1; d2] [P; Q]))
+  = cmul (suml c0 cadd [wt1; wt2]) M.
+Proof. exact C02i_weights. Qed.
